@@ -87,7 +87,7 @@ pub fn plan(prop: &str) -> Option<Plan> {
         ),
         "C06" => p(
             "C06",
-            vec![("inputs", 3, false), ("faults", 2, false), ("mpp", 2, false), ("wire", 1, false), ("plain", 1, false), ("reads", 1, false), ("config", 1, false)],
+            vec![("inputs", 3, false), ("faults", 2, false), ("mpp", 2, false), ("wire", 1, false), ("plain", 1, false), ("reads", 1, false), ("config", 1, false), ("flood", 1, false)],
             vec![],
             vec!["tramp.delivered", "c13.nontrampoline-delivered", "c06.undecodable-delivered"],
             "a run is non-trivial if at least one hook call was delivered",
@@ -142,14 +142,14 @@ pub fn plan(prop: &str) -> Option<Plan> {
         ),
         "C13" => p(
             "C13",
-            vec![("inputs", 4, false), ("plain", 1, false), ("wire", 1, false)],
+            vec![("inputs", 4, false), ("plain", 1, false), ("wire", 1, false), ("flood", 1, false)],
             vec![],
             vec!["c13.nontrampoline-delivered"],
             "a run is non-trivial if a non-trampoline HTLC was delivered",
         ),
         "C14" => p(
             "C14",
-            vec![("isolation", 1, false)],
+            vec![("isolation", 5, false), ("flood", 1, false)],
             vec![],
             vec!["c14.frozen-run-completed"],
             "a run is non-trivial if one hash was frozen and another one had HTLCs in flight",
